@@ -51,7 +51,13 @@ NOSOURCE = ["exec('v = o.x', {{'o': o}})", "v = eval('o.x', {{'o': o}})", "exec(
             "exec('o.x = {k}', {{'o': o}})", "v = eval('o.x {c} {k}', {{'o': o}})",
             "exec('h.x {a} o.x', {{'o': o, 'h': h}})"]
 
-FAMILIES = {"nosource": NOSOURCE, "item": ITEMS, "read": READS, "compare": COMPARES, "assign": ASSIGNS, "aug_self": AUG_SELF,
+# statements that end in an exception (the harness catches it): they have finished all the same
+RAISES_OTHER = ["v = o.x // 0", "v = w[o.x + 99]", "o.x = {k} // 0", "v {a} o.x // 0", "v = o.x {c} w[99]",
+                "o.x = w[99]", "v = int('x') + o.x"]
+# ... among them augmented assignments to the attribute whose right-hand side raises
+RAISES_AUG = ["o.x {a} {k} // 0", "o.x {a} w[99]", "o.x {a} o.x // 0", "o.x {a} int('x')"]
+
+FAMILIES = {"raises_other": RAISES_OTHER, "raises_aug": RAISES_AUG, "nosource": NOSOURCE, "item": ITEMS, "read": READS, "compare": COMPARES, "assign": ASSIGNS, "aug_self": AUG_SELF,
             "aug_other": AUG_OTHER, "lockform": LOCKFORM, "comment": COMMENTS, "classread": CLASSREAD}
 
 
@@ -114,7 +120,8 @@ class C28(Prop):
           "attribute of the same name, h.x += o.x for a plain object h whose ordinary attribute has that name), "
           "lines that read the attribute a second time before or after the assignment, "
           "the same kinds of statement run through exec()/eval() (code without source lines, as at the interactive prompt), "
-          "and reads of the attribute through the class (K.x, getattr(K, 'x'), dir). The "
+          "and reads of the attribute through the class (K.x, getattr(K, 'x'), dir), and statements that end in an exception "
+          "(a read inside an expression that raises, an assignment or augmented assignment whose right-hand side raises; the harness catches the exception). The "
           "statement is written to a real source file (miros inspects the caller's source line), "
           "compiled and executed once by the calling thread; every statement is also run inside a function that refers to 140 other names first (extended bytecode arguments). Oracle: afterwards the attribute's lock "
           "(threading.RLock substituted in miros.thread_safe_attributes by a depth-counting "
@@ -197,8 +204,16 @@ class C28(Prop):
       class H:
         n = 1
         x = 1
+      raising = case["family"].startswith("raises")
       try:
         ns["run"](o, 1, [1, 2, 3], H(), o2, klass, p_)
+        if raising:
+          raise PropertyViolation("statement %r was expected to raise" % stmt, "C28:harness")
+      except PropertyViolation:
+        raise
+      except (ZeroDivisionError, IndexError, ValueError) as e:
+        if not raising:
+          raise PropertyViolation("statement %r raised %s: %s" % (stmt, type(e).__name__, e), "C28:raised")
       except Exception as e:
         raise PropertyViolation("statement %r raised %s: %s" % (stmt, type(e).__name__, e), "C28:raised")
       held = sum(l.depth for l in locks)
@@ -217,7 +232,8 @@ class C28(Prop):
       t.join()
       if held != 0 or got != [True]:
         b = {"compare": "C28:comparison-keeps-lock", "aug_other": "C28:augassign-other-target",
-             "comment": "C28:operator-in-comment"}.get(case["family"], "C28:keeps-lock")
+             "comment": "C28:operator-in-comment",
+             "raises_aug": "C28:raising-right-hand-side-keeps-lock"}.get(case["family"], "C28:keeps-lock")
         self.violation(stats, "after %r the calling thread still holds an attribute's lock "
                        "(depth %d; another thread can%s acquire it)" % (
                          stmt, held, "" if got == [True] else "not"), b)
